@@ -4,7 +4,7 @@
    engine buffer and a sequence of stages with the state observed after each.
    kind 1 = the model applied to the state observed before a stage differs from the state observed after it,
    kind 2 = a statement of C01 fails on the observed states: WF not preserved or a panic although it held before, the smallest
-            cluster lost, formClusters (MonotoneGraphemes) leaving a continuation outside the cluster of its base,
+            cluster lost, a cluster value invented, formClusters (MonotoneGraphemes) leaving a continuation outside the cluster of its base,
             ensureMonotoneClusters leaving clusters out of order. *)
 From TV Require Export Lib.Bytes Model.Engine Spec.Buffer Check.C01Buf.
 
@@ -93,11 +93,15 @@ Definition stage_rng (lo hi : Z) (s : stage) : bool :=
   | _ => true
   end.
 
+(* no stage other than AddRunes / AddRune invents a cluster value *)
+Definition no_new_cluster (before after : buffer) : bool :=
+  forallb (fun c => existsb (Z.eqb c) (cls (bseq before))) (cls (bseq after)).
 Definition stage_post (s : stage) (cur st : ebuf) : bool :=
   match s with
   | SAddRunes _ _ _ _ | SAddRune _ _ _ => true
-  | SForm => keeps_min_ok (eb cur) (eb st) && (negb (level (eb cur) =? 0) || negb (sf_nonascii cur) || groups_uniform (info (eb st)))
-  | _ => keeps_min_ok (eb cur) (eb st)
+  | SForm => keeps_min_ok (eb cur) (eb st) && no_new_cluster (eb cur) (eb st)
+             && (negb (level (eb cur) =? 0) || negb (sf_nonascii cur) || groups_uniform (info (eb st)))
+  | _ => keeps_min_ok (eb cur) (eb st) && no_new_cluster (eb cur) (eb st)
   end.
 
 Section Steps.
@@ -131,7 +135,10 @@ Definition stage_clusters (s : stage) : list Z :=
 Definition ecase_range (c : case) : Z * Z :=
   let l := cls (bseq (eb (c_init c))) ++ flat_map (fun s => stage_clusters (fst s)) (c_steps c) in (lmin l, lmax l + 1).
 
-Definition ecorr_ok (c : case) : bool := esteps_corr (c_env c) (c_init c) (c_steps c).
+(* the obligations the theorems put on the per-case data: general categories are numbers below 32 (pre_normalize_preserves_wf,
+   default_pipeline_preserves_wf); a case whose data violates them is reported as a broken tie (kind 1) *)
+Definition env_ok (v : env) : bool := forallb (fun u => (0 <=? u_gc u) && (u_gc u <? 32)) (v_unis v).
+Definition ecorr_ok (c : case) : bool := env_ok (c_env c) && esteps_corr (c_env c) (c_init c) (c_steps c).
 Definition eprop_ok (c : case) : bool :=
   let '(lo, hi) := ecase_range c in esteps_prop (c_env c) lo hi (c_init c) (c_steps c).
 
